@@ -3,6 +3,7 @@ package h
 import (
 	"fmt"
 	"math"
+	"regexp"
 	"sort"
 	"strings"
 )
@@ -242,6 +243,8 @@ func GenDataset(r *Rng, w Window, lookback int64, maxSeries int, hostile, withHi
 // ---------------------------------------------------------------------------------------------
 // queries
 
+var reOffsetMod = regexp.MustCompile(` offset -?[0-9a-z]+`)
+
 type qgen struct {
 	r *Rng
 	g *GenCfg
@@ -419,7 +422,14 @@ func (q *qgen) instantFn(d int) string {
 			if !g.on("fn:timestamp") {
 				continue
 			}
-			return fmt.Sprintf("timestamp(%s)", q.vector(d-1))
+			arg := q.vector(d - 1)
+			if strings.Contains(arg, "@") && strings.Contains(arg, " offset ") {
+				// Pinned Prometheus: for timestamp() over a selector with an @ modifier the evaluator
+				// overwrites the selector's offset with (step - @) and thereby forgets a written
+				// offset. The reference is not a usable oracle for that combination.
+				arg = reOffsetMod.ReplaceAllString(arg, "")
+			}
+			return fmt.Sprintf("timestamp(%s)", arg)
 		case 6:
 			if !g.on("fn:vector") {
 				continue
